@@ -150,4 +150,12 @@ META = {
                 "entry means no violation.",
         "note": "Preconditions are observable at block entries only; region statements are excluded (backward transformers documented as not implemented).",
     },
+    "C15": {
+        "technique": "concrete reference interpreter with an explicit heap model + gamma-membership of loaded values + reference queries (nullness, allocation sites, tags) against the concrete heap (differential); choice-tape PBT (rapidcheck) and libFuzzer",
+        "text": "Sampled search over generated region/reference programs, five base domains and all region-domain parameters: every value a concrete execution loads through a "
+                "reference from a previously stored cell must be inside the abstract value of the receiving variable, a definite null / non-null answer must match every concrete "
+                "execution, and reported allocation-site and tag sets must contain the actual ones.",
+        "note": "Forward intra-procedural analysis only (no operation histories for the region domain). One recorded finding (reference count kept at one when the counted variable "
+                "is redefined while its old target is still aliased) is reported as KNOWN-FINDING and, being event based, can hide other load failures in the same region.",
+    },
 }
